@@ -221,7 +221,7 @@ func runC03(c *Ctx) {
 					fmt.Sprintf("measured cell width: %v, guarded by new > old: %v, header initialisation: %v", isCW, guarded, hdrInit))
 			}
 		}
-		r.Floor("R03.1", "stores into the column widths", ns, 2)
+		r.Floor("R03.1", "stores into the column widths", ns, 1)
 	} else if widths != nil {
 		r.Check("R03.1", FuncName(fn), "the widths slice is made in RenderTo", fn.Pos(), false, widths.String())
 	}
@@ -1378,13 +1378,17 @@ func c04Padding(c *Ctx, wwa *ssa.Function, ws *types.Named) {
 		if !found {
 			continue
 		}
-		for _, hr := range returnsOf(h) {
-			arm := alignArm(hr.Block())
+		// (a single return fed by per-arm assignments to named results is taken apart into its cases)
+		for _, rc := range returnCasesDepth(h, 1) {
+			arm := alignArm(rc.Ret.Block())
+			if arm == "" && rc.Via != nil {
+				arm = alignArm(rc.Via)
+			}
 			if arm == "" {
 				continue
 			}
-			rv := results(hr)
-			splits = append(splits, split{arm: arm, before: ph.linOf(rv[exB.Index]), after: ph.linOf(rv[exA.Index]), pr: ph, padL: hPad, pos: hr.Pos(), fn: h, ok: true})
+			rv := rc.Vals
+			splits = append(splits, split{arm: arm, before: ph.linOf(rv[exB.Index]), after: ph.linOf(rv[exA.Index]), pr: ph, padL: hPad, pos: rc.Ret.Pos(), fn: h, ok: true})
 		}
 	}
 	for _, sp := range splits {
@@ -1579,6 +1583,47 @@ func sliceStoreSites(root ssa.Value, bind map[*ssa.Parameter]ssa.Value, depth in
 				}
 			case *ssa.Phi:
 				visit(x)
+			case *ssa.Store:
+				// the slice put into a local struct that groups values and is handed whole to helpers
+				al, k := carrierOfStore(x)
+				if al == nil || x.Val != v {
+					continue
+				}
+				vals, stores, calls, okC := structFieldAliases(al, k, 0)
+				if !okC || len(stores) != 1 {
+					continue
+				}
+				for _, a := range vals {
+					visit(a)
+				}
+				var follow func(calls []carrierCall, b map[*ssa.Parameter]ssa.Value, d int)
+				follow = func(calls []carrierCall, b map[*ssa.Parameter]ssa.Value, d int) {
+					for _, cc := range calls {
+						callee := cc.Call.Common().StaticCallee()
+						if callee == nil || !inModule(callee) || callee.Blocks == nil || d >= 3 || len(cc.Call.Common().Args) != len(callee.Params) {
+							continue
+						}
+						nb := map[*ssa.Parameter]ssa.Value{}
+						for j, a := range cc.Call.Common().Args {
+							act := a
+							if par, isPar := a.(*ssa.Parameter); isPar && b != nil {
+								if outer, has := b[par]; has {
+									act = outer
+								}
+							}
+							nb[callee.Params[j]] = act
+						}
+						cv, cst, ccalls, okH := structFieldAliases(callee.Params[cc.Arg], k, 0)
+						if !okH || len(cst) != 0 {
+							continue
+						}
+						for _, a := range cv {
+							out = append(out, sliceStoreSites(a, nb, d+1)...)
+						}
+						follow(ccalls, nb, d+1)
+					}
+				}
+				follow(calls, bind, depth)
 			case ssa.CallInstruction:
 				cc := x.Common()
 				callee := cc.StaticCallee()
